@@ -357,7 +357,8 @@ def eds_model(rng, node_id=None, n_objects=14, dcf=False, index_ranges=((0x1002,
             m.add(o)
     m.node_id = node_id
     m.bitrate = rng.choice([None, 10000, 125000, 250000, 500000, 1000000]) if dcf else None
-    m.comments = rng.choice(["", "Single line comment", "First line\nSecond line with = and %\nThird: line"])
+    m.comments = rng.choice(["", "Single line comment", "First line\nSecond line with = and %\nThird: line",
+                             "\n".join(f"comment line number {i} of many" for i in range(1, rng.randint(10, 25)))])
     m.device_info = {
         "vendor_name": rng.choice(["ACME Drives", "canmon GmbH", "V=1 %"]), "vendor_number": rng.getrandbits(32),
         "product_name": rng.choice(["Servo 3000", "IO-Module"]), "product_number": rng.getrandbits(32),
